@@ -996,7 +996,7 @@ theorem SysInv.commitOk {d n s} (hI : SysInv d n s) (tid : Nat) (x : TxnSt)
 
 /-! ## Every reachable state satisfies the invariant -/
 
-theorem Reach.inv {d : Bool} {n : Nat} {s : Sys} (h : Reach false d n s) : SysInv d n s := by
+theorem OReach.inv {d : Bool} {n : Nat} {s : Sys} (h : OReach false d n s) : SysInv d n s := by
   induction h with
   | init => exact SysInv.init d n
   | @step s s' l _ hstep ih =>
@@ -1180,8 +1180,8 @@ def Sys.runLabels (s : Sys) : List Label → Option Sys
   | [] => some s
   | l :: ls => (s.step l).bind (fun s' => s'.runLabels ls)
 
-theorem Reach.ofRun {m d : Bool} {n : Nat} {s s' : Sys} (h : Reach m d n s) (ls : List Label)
-    (hr : s.runLabels ls = some s') : Reach m d n s' := by
+theorem OReach.ofRun {m d : Bool} {n : Nat} {s s' : Sys} (h : OReach m d n s) (ls : List Label)
+    (hr : s.runLabels ls = some s') : OReach m d n s' := by
   induction ls generalizing s with
   | nil => simp [Sys.runLabels] at hr; subst hr; exact h
   | cons l ls ih =>
@@ -1190,6 +1190,6 @@ theorem Reach.ofRun {m d : Bool} {n : Nat} {s s' : Sys} (h : Reach m d n s) (ls 
     | none => rw [hs] at hr; simp at hr
     | some s1 =>
       rw [hs] at hr
-      exact ih (Reach.step l h hs) hr
+      exact ih (OReach.step l h hs) hr
 
 end Badger
